@@ -70,6 +70,26 @@ def attempts(real, rng, w):
             if n != r and live[n][0] in ("tag", "text"):
                 out.append(("sibling-of-root", (rng.choice(["follow", "precede"]), r, (("node", n),)),
                             "TypeError" if live[r][0] == "tag" else "InvalidOperation"))
+    # a comment / PI next to a document's root offered elsewhere (it has a sibling: the root)
+    docsibs = [i for i in ids if live[i][1] == "docsib"]
+    for n in docsibs:
+        for p in tags:
+            if live[p][1] != "docroot" or True:
+                out.append(("document-sibling-offered", (rng.choice(["append", "prepend"]), p, (("node", n),)), "InvalidOperation"))
+        for x in attached:
+            out.append(("document-sibling-offered", (rng.choice(["follow", "precede"]), x, (("node", n),)), "InvalidOperation"))
+    # a comment / PI offered as sibling of a parentless text or tag node
+    for r in loose:
+        if live[r][0] in ("text", "tag"):
+            for n in loose:
+                if n != r and live[n][0] in ("comment", "pi"):
+                    out.append(("comment-next-to-parentless-text-or-tag", (rng.choice(["follow", "precede"]), r, (("node", n),)),
+                                "TypeError" if live[r][0] == "tag" else "InvalidOperation"))
+    # a document's root offered as sibling
+    for r in roots:
+        for x in attached:
+            if r not in anc(x):
+                out.append(("document-root-offered", (rng.choice(["follow", "precede"]), x, (("node", r),)), "InvalidOperation"))
     # D: positions
     for p in tags:
         nk = len(c01.vis_kids(real, real.objs[p], F_ALL))
@@ -101,19 +121,35 @@ def classify(finding, case):
     return finding["cls"] == CLASS_OF.get(case.get("category"))
 
 
+SMALL_DOCS = ["<r/><!--c-->", "<!--c--><r/>", "<?p q?><r></r>", '<r xmlns="d"/><?e f?>', "<r/><!--c--><?e f?>", "<r>t</r><!--c-->"]
+
+
 def run_case(ctx, rng, h):
     real = Real()
-    docs_xml = [c01.gen_doc(rng) for _ in range(rng.choice([1, 1, 2]))]
+    docs_xml = [rng.choice(SMALL_DOCS) if rng.random() < 0.3 else c01.gen_doc(rng) for _ in range(rng.choice([1, 1, 2]))]
+    root_assign = []
     for x in docs_xml:
-        real.docs.append(Document(x))
-    keep = c01.gen_pool(rng)
+        d = Document(x)
+        # the root setter is outside the Coq model: it is exercised before the first dump, so that the refusals below are
+        # also demanded of documents whose root was (re-)assigned
+        r = rng.random()
+        if r < 0.25:
+            d.root = d.root
+            root_assign.append("self")
+        elif r < 0.35:
+            d.root = d.root.clone(deep=True)
+            root_assign.append("clone")
+        else:
+            root_assign.append(None)
+        real.docs.append(d)
+    keep = c01.gen_pool(rng) + [impl.TextNode("L"), impl.new_comment_node("lc"), impl.new_processing_instruction_node("lp", "v")]
     real.dump_world()
     for o in keep:
         real.nid(o)
         if isinstance(o, impl.TagNode):
             real.dump_el(o)
     w0 = real.dump_world()
-    rec = {"docs": docs_xml, "w0": w0, "steps": []}
+    rec = {"docs": docs_xml, "w0": w0, "steps": [], "root_assign": root_assign}
     w = w0
     for _ in range(rng.randint(0, 10)):          # reach a state through legal edits
         o = c01.gen_op(real, rng, w, F_ALL)
@@ -132,7 +168,7 @@ def run_case(ctx, rng, h):
     rng.shuffle(cands)
     seen = {}
     for cat, o, expect in cands:
-        if seen.get(cat, 0) >= 3 or len(rec["steps"]) > 40:
+        if seen.get(cat, 0) >= 3 or len(rec["steps"]) > 48:
             continue
         seen[cat] = seen.get(cat, 0) + 1
         exc = real.run(F_ALL, o)
@@ -150,7 +186,8 @@ def compare(ctx, rec, val):
     cs, as_, wf = T.decode_both(val)
     for idx, (st, (cr, tr, cw)) in enumerate(zip(rec["steps"], cs)):
         o = st["op"]
-        case = {"docs": rec["docs"], "initial_world": rec["w0"], "ops": [s["op"] for s in rec["steps"][:idx + 1]],
+        case = {"docs": rec["docs"], "root_assigned_before": rec["root_assign"], "initial_world": rec["w0"],
+                "ops": [s["op"] for s in rec["steps"][:idx + 1]],
                 "category": st["category"], "exception": st["exc"]}
         ctx.count(1, st["category"])
         if st["category"] != "legal":
